@@ -35,6 +35,12 @@ def run(chk):
     per_font = 150 if quick else 3000
     for fpath, _, _ in flist:
         part(['--part', 'pad', '--font', fpath], per_font, nshards=1 if quick else 4)
+    # synthesised Feat / Sill tables with 1..4-letter language tags and short feature-id tags (no shipped font has a one-letter tag)
+    from .. import synthwork
+    lst, spaths = synthwork.make_fonts('feat', chk.seed, 40 if quick else 600)
+    chk.run_parts([dict(harness=HARNESS, flavour='asan', args=['--part', 'pad', '--font', p], cases=80 if quick else 400, nshards=1, nsamples=0) for p in spaths], workers=16)
+    R._merge(tot, {k: v for k, v in chk.tot.items() if k.startswith('pad_')})
+    cov['synth_fonts'] = len(spaths)
     cov['evaluations'] = int(tot.get('str_calls', 0) + tot.get('tag_calls', 0) + tot.get('pad_pairs', 0))
     # distinct non-trivial: every string / tag / (font, tag pair) is distinct by construction of the enumeration;
     # non-trivial = strings of length >= 1, all tags, and padding pairs that select an existing feature or language
